@@ -119,6 +119,7 @@ func (r *Report) Nontrivial(key string) {
 	r.nontrivial[h] = struct{}{}
 	r.mu.Unlock()
 }
+
 // NontrivialBulk adds n cases that are distinct by construction (exhaustive enumeration) and non-trivial by the rule,
 // for spaces too large to keep one key per case.
 func (r *Report) NontrivialBulk(n int64) { r.mu.Lock(); r.ntBulk += n; r.mu.Unlock() }
